@@ -36,6 +36,7 @@ import (
 	"strconv"
 	"strings"
 	"sync"
+	"sync/atomic"
 	"time"
 
 	"github.com/docker/docker/api/types"
@@ -180,6 +181,15 @@ type hpEndpoint struct {
 	// what to do for a request: path -> (hop, location of the next endpoint for a redirect)
 	route func(path string) (hop hpHop, role string, location string, ok bool)
 	wg    sync.WaitGroup
+	// set when the endpoint itself was late by more than a fifth of the timeout (accept -> request read,
+	// or nominal delay -> headers written): the machine was busy, the case is run again
+	disturbed *int32
+}
+
+func (e *hpEndpoint) late(since time.Time, nominal time.Duration) {
+	if time.Since(since) > nominal+e.timeout/5 {
+		atomic.StoreInt32(e.disturbed, 1)
+	}
 }
 
 func (e *hpEndpoint) addr() *net.TCPAddr { return e.ln.Addr().(*net.TCPAddr) }
@@ -208,6 +218,7 @@ func (e *hpEndpoint) serve() {
 
 func (e *hpEndpoint) handle(raw net.Conn) {
 	defer raw.Close()
+	accepted := time.Now()
 	var c net.Conn = raw
 	if e.tls {
 		tc := tls.Server(raw, &tls.Config{Certificates: []tls.Certificate{hpCert}})
@@ -222,6 +233,8 @@ func (e *hpEndpoint) handle(raw net.Conn) {
 	if err != nil {
 		return
 	}
+	e.late(accepted, 0)
+	gotRequest := time.Now()
 	hop, role, location, ok := e.route(req.URL.Path)
 	if !ok {
 		fmt.Fprintf(c, "HTTP/1.1 418 I'm a teapot\r\nContent-Length: 0\r\nConnection: close\r\n\r\n")
@@ -303,6 +316,8 @@ func (e *hpEndpoint) handle(raw net.Conn) {
 		}
 	}
 	fmt.Fprintf(w, "\r\n")
+	w.Flush()
+	e.late(gotRequest, e.timeout*time.Duration(hop.delay)/100)
 	write := func(s string) error {
 		if s == "" {
 			return nil
@@ -345,7 +360,7 @@ func (e *hpEndpoint) handle(raw net.Conn) {
 				return
 			case <-cap:
 				return
-			default:
+			case <-time.After(100 * time.Microsecond): // ~80 MB/s at most: do not starve the other cases
 			}
 		}
 	}
@@ -383,6 +398,19 @@ func hpRole(kind, path string) (string, bool) {
 }
 
 func runHTTPProbe(kind, scheme, ip string, timeoutMs int, script string) string {
+	var out string
+	for attempt := 0; attempt < 4; attempt++ {
+		var disturbed bool
+		out, disturbed = runHTTPProbeOnce(kind, scheme, ip, timeoutMs, script)
+		if !disturbed {
+			break
+		}
+	}
+	return out
+}
+
+func runHTTPProbeOnce(kind, scheme, ip string, timeoutMs int, script string) (string, bool) {
+	var disturbed int32
 	timeout := time.Duration(timeoutMs) * time.Millisecond
 	parts := strings.Split(script, "|")
 	roles := []string{"info", "second"}
@@ -390,7 +418,7 @@ func runHTTPProbe(kind, scheme, ip string, timeoutMs int, script string) string 
 		roles = []string{"ping", "info", "version"}
 	}
 	if len(parts) != len(roles) {
-		return "bad-script"
+		return "bad-script", false
 	}
 	exch := map[string][]hpHop{}
 	for i, r := range roles {
@@ -399,7 +427,7 @@ func runHTTPProbe(kind, scheme, ip string, timeoutMs int, script string) string 
 	done := make(chan struct{})
 	var eps []*hpEndpoint
 	newEndpoint := func(ip string, useTLS bool) *hpEndpoint {
-		e := &hpEndpoint{ln: hpListen(ip), tls: useTLS, kind: kind, timeout: timeout, done: done}
+		e := &hpEndpoint{ln: hpListen(ip), tls: useTLS, kind: kind, timeout: timeout, done: done, disturbed: &disturbed}
 		eps = append(eps, e)
 		return e
 	}
@@ -504,7 +532,7 @@ func runHTTPProbe(kind, scheme, ip string, timeoutMs int, script string) string 
 	default:
 		out = hpRender(kind, res, port)
 	}
-	return fmt.Sprintf("%s;ms=%d", out, ms)
+	return fmt.Sprintf("%s;ms=%d", out, ms), atomic.LoadInt32(&disturbed) != 0
 }
 
 func hpHost(s string, port int) string {
@@ -578,7 +606,7 @@ type hpJob struct {
 
 func httpProbeComponent(r *hx.Run) {
 	r.Rule = "case = (scanner elastic|docker, scheme http|https, loopback address, timeout, per-request endpoint script); scripts = exhaustive product body class (12) x stream ending (eof|stall|endless) x scheme for the primary request at status 200, x 12 status codes for the eof ending, connection-level failures (refused, protocol mismatch, close, RST, non-HTTP bytes, stalled / partial headers), every secondary-request behaviour against a reporting primary, delayed answers (60% of the timeout, once and twice: per-request vs per-probe budget), redirects to a second endpoint (1-3 hops, scheme change), plus random combinations; real Scanner.Scan in-process, duration measured; non-trivial class = (scanner, scheme, primary hop class, secondary hop class)"
-	T := 400
+	T, Tdelay := 400, 600
 	idc := 10
 	nextID := func() int { idc++; return idc }
 	var jobs []hpJob
@@ -612,7 +640,15 @@ func httpProbeComponent(r *hx.Run) {
 			parts = append(parts, hpExchangeString(x))
 			cls = append(cls, hopClass(x))
 		}
-		jobs = append(jobs, hpJob{kind, scheme, ipOf(), T, strings.Join(parts, "|"), kind + "/" + scheme + "/" + strings.Join(cls, "|")})
+		t := T
+		for _, x := range xs {
+			for _, h := range x {
+				if h.delay > 0 {
+					t = Tdelay
+				}
+			}
+		}
+		jobs = append(jobs, hpJob{kind, scheme, ipOf(), t, strings.Join(parts, "|"), kind + "/" + scheme + "/" + strings.Join(cls, "|")})
 	}
 	one := func(h hpHop) []hpHop { return []hpHop{h} }
 	// add a case for both scanners with `prim` as the primary exchange and `sec` as the secondary
@@ -751,21 +787,27 @@ func httpProbeComponent(r *hx.Run) {
 		}
 	}
 
-	// run, 48 probes at a time (stalls sleep, they do not burn CPU)
+	// run: cases without a timed answer 32 at a time (stalls sleep, they do not burn CPU), then the cases
+	// with delayed answers 8 at a time (their outcome depends on a 40% margin of the timeout)
 	outs := make([]string, len(jobs))
-	var wg sync.WaitGroup
-	sem := make(chan struct{}, 48)
-	for i := range jobs {
-		wg.Add(1)
-		sem <- struct{}{}
-		go func(i int) {
-			defer wg.Done()
-			defer func() { <-sem }()
-			j := jobs[i]
-			outs[i] = runHTTPProbe(j.kind, j.scheme, j.ip, j.timeout, j.script)
-		}(i)
+	for phase := 0; phase < 2; phase++ {
+		var wg sync.WaitGroup
+		sem := make(chan struct{}, []int{32, 8}[phase])
+		for i := range jobs {
+			if timed := jobs[i].timeout != T; timed != (phase == 1) {
+				continue
+			}
+			wg.Add(1)
+			sem <- struct{}{}
+			go func(i int) {
+				defer wg.Done()
+				defer func() { <-sem }()
+				j := jobs[i]
+				outs[i] = runHTTPProbe(j.kind, j.scheme, j.ip, j.timeout, j.script)
+			}(i)
+		}
+		wg.Wait()
 	}
-	wg.Wait()
 	for i, j := range jobs {
 		r.Count(j.kind + "/" + j.scheme)
 		if strings.HasPrefix(outs[i], "rec") {
